@@ -471,12 +471,88 @@ def _help_space(prog: Program, res: Result) -> None:
                 res.undecided("HELP-space", fi.short, desc, prog.loc(fi, rets[-1][0]), repr(v))
 
 
+# ------------------------------------------------------------------ HELP-key: rows compared through scalar keys
+KEY_FIXTURE = """
+def ismember(search, source):
+    lo = source.min(axis=0)
+    radix = np.cumprod(np.concatenate(([1], (source.max(axis=0) - lo + 1)[:-1])))
+    source_keys = (source - lo) @ radix
+    search_keys = (search - lo) @ radix
+    return np.nonzero(source_keys == search_keys[:, np.newaxis])
+"""
+
+
+def _key_rule(fn: ast.FunctionDef):
+    """Rows reduced to one integer key each ((rows - lo) @ radix, rows.dot(radix)): the encoding is one-to-one only inside the box its
+    offsets / radices were computed from, so they must be computed from EVERY operand that is encoded.
+    Returns list of (ok, message, node); empty when no key encoding is present."""
+    from .C02 import _roots
+    params = [a.arg for a in fn.args.args]
+    prov = _roots(fn)
+    out = []
+    encodings = []      # (encoded operand roots, roots of the encoding constants, node)
+    for n in ast.walk(fn):
+        pair = None
+        if isinstance(n, ast.BinOp) and isinstance(n.op, ast.MatMult):
+            pair = (n.left, n.right)
+        elif isinstance(n, ast.Call) and isinstance(n.func, ast.Attribute) and n.func.attr == "dot" and len(n.args) == 1:
+            pair = (n.func.value, n.args[0])
+        elif isinstance(n, ast.Call) and (dotted(n.func) or "").split(".")[-1] in ("dot", "ravel_multi_index") and len(n.args) >= 2:
+            pair = (n.args[0], n.args[1])
+        if pair is None:
+            continue
+        rows, consts = pair
+        # the rows operand: a parameter, possibly shifted by an offset
+        row_roots, const_names = set(), set()
+        for x in ast.walk(rows):
+            if isinstance(x, ast.Name):
+                (row_roots if x.id in params else const_names).add(x.id)
+        for x in ast.walk(consts):
+            if isinstance(x, ast.Name):
+                const_names.add(x.id)
+        if len(row_roots) != 1:
+            continue
+        croots = set()
+        for c in const_names:
+            croots |= prov.get(c, set())
+        croots &= set(params)
+        if croots:
+            encodings.append((next(iter(row_roots)), croots, n))
+    encoded = {e[0] for e in encodings}
+    if len(encoded) < 2:
+        return out
+    for op, croots, node in encodings:
+        missing = encoded - croots
+        if missing:
+            out.append((False, f"rows of `{op}` are encoded with offsets / radices computed from {sorted(croots)} only: a row of "
+                               f"{sorted(missing)} outside that range gets the key of another row and is reported as a member", node))
+        else:
+            out.append((True, "", node))
+    return out
+
+
+def _help_key(prog: Program, res: Result) -> None:
+    fx = _key_rule([x for x in ast.walk(ast.parse(KEY_FIXTURE)) if isinstance(x, ast.FunctionDef)][0])
+    if not fx or all(v[0] for v in fx):
+        raise AnalysisError("HELP-key positive fixture not recognised")
+    for name in ("tt_ismember_rows", "tt_intersect_rows", "tt_setdiff_rows", "tt_union_rows"):
+        fi = prog.func(f"pyttb_utils.{name}")
+        desc = f"{name}: rows are compared in full, or through keys whose encoding covers every operand"
+        vs = _key_rule(fi.node)
+        bad = [v for v in vs if not v[0]]
+        if bad:
+            res.bad("HELP-key", fi.short, desc, prog.loc(fi, bad[0][2]), bad[0][1])
+        else:
+            res.ok("HELP-key", fi.short, desc, prog.loc(fi), "no one-sided key encoding", nontrivial=bool(vs))
+
+
 def check(prog: Program, res: Result, tier: str) -> None:
     res.explanation = __doc__.split("\n\n", 1)[1]
     res.assumptions = ["np.ravel_multi_index / np.unravel_index are mutual inverses for equal `order`; np.argsort is ascending and stable enough for distinct modes"]
     res.floors = {"IDX-inv": 3, "DIMS": 4, "KRAX": 3, "EO-1": 4, "HELP-dom": 3, "HELP-space": 3}
     _helpers(prog, res)
     _help_space(prog, res)
+    _help_key(prog, res)
     _idx(prog, res)
     _dims(prog, res)
     _krax(prog, res)
